@@ -134,7 +134,9 @@ func validateFieldsInSetCanMerge(fieldsForName map[string][]fieldAndParent, frag
 							argsA[arg.Name.Name] = arg
 						}
 						for _, argB := range fieldB.Arguments {
-							if argA, ok := argsA[argB.Name.Name]; !ok || !valuesAreIdentical(argA.Value, argB.Value) {
+							if argA, ok := argsA[argB.Name.Name]; !ok {
+								return newErrorWithNodes([]ast.Node{fieldA, fieldB}, "cannot merge fields with differing arguments")
+							} else if !valuesAreIdentical(argA.Value, argB.Value) {
 								return newErrorWithNodes([]ast.Node{argA, argB}, "cannot merge fields with differing arguments")
 							}
 						}
